@@ -2,6 +2,7 @@
 import re
 
 from common import cone_reads_field, find_aggs
+from factlib import trace
 
 RES = "async_graphql::dynamic::resolve"
 
@@ -20,6 +21,51 @@ def run(F, R):
             "consults possible types",
             "type_condition_matched is name equality or object.implements.contains(..) only: a fragment on a union "
             "that contains the object is dropped although validation admits it")
+
+    R.rule("R02.7", "the fragment-applicability predicate is a function of the runtime object's own supertype set (its name, its implements, unions containing "
+                    "it): collect_fields must not consult the supertypes (`implements`) of the *condition* type, which would match siblings that merely share a parent")
+    impl_reads = []
+    for b in F.with_nested(cf):
+        for bb, st in b.all_stmts():
+            for part in (st[0], st[1]):
+                txt = str(part)
+                if "'.implements'" in txt:
+                    # whose implements? the object's (param `object`) or something looked up from schema.types
+                    base = part[0] if isinstance(part, list) and part and isinstance(part[0], int) else None
+                    places = [part] if base is not None else [x for x in (part[1:] if isinstance(part, list) else []) if isinstance(x, list)]
+                    impl_reads.append((b, bb, st))
+    bad7 = []
+    for b, bb, st in impl_reads:
+        # find the place that projects .implements
+        def places(o):
+            if isinstance(o, list):
+                if o and isinstance(o[0], int) and all(isinstance(x, str) for x in o[1:]):
+                    yield o
+                else:
+                    for x in o:
+                        for y in places(x):
+                            yield y
+        for pl in places(st):
+            if ".implements" in pl:
+                o, passed = trace(b, pl[0])
+                from_object = any(k == "param" and b.local_name(x) == "object" for k, x in o) or any(k == "upvar" and x == "object" for k, x in o) or b.local_name(pl[0]) == "object"
+                via_types = any(p.callee and re.search(r"indexmap::map::\{impl#\d+\}::get$", p.callee) for p in passed) or any(k == "param" and b.kind == "closure" for k, x in o)
+                if not from_object and (via_types or b.kind == "closure"):
+                    bad7.append((b, st))
+    R.check(not bad7, "R02.7", "collect_fields:condition-type-supertypes-consulted", bad7[0][0].where() if bad7 else cf.where(), "only the object's own implements is read",
+            "the type-condition test reads `implements` of a type looked up from the schema (the condition type): objects that share a parent interface with the "
+            "condition match fragments they do not satisfy")
+
+    R.rule("R02.8", "resolve_value never yields Ok(None): a value the resolver produced for a leaf type is either accepted (Ok(Some)) or an error — otherwise "
+                    "the NonNull arm of resolve(), which only rejects a *missing* resolver value, lets null into a non-null position")
+    rv8 = F.one(RES + r"::resolve_value::\{closure#0\}$")
+    nones = []
+    for (bb, r, line) in find_aggs(rv8, r"core::result::Result$"):
+        if r[3] == "Ok" and r[5]:
+            o, _ = trace(rv8, r[5][0])
+            if any(k == "agg" and x[2].endswith("option::Option") and x[3] == "None" for k, x in o):
+                nones.append(line)
+    R.check(not nones, "R02.8", "resolve_value:no-Ok(None)", rv8.where(), "no Ok(None) constructed", "resolve_value returns Ok(None) (line %s): a resolver-produced null skips the leaf checks and can land in a non-null position" % nones)
 
     R.rule("R02.3", "in resolve_value every Ok(Some(..)) produced for a Type::Scalar is guarded by scalar.validate(value) "
                     "and for a Type::Enum by enum_values.contains_key")
